@@ -36,6 +36,16 @@ def _worker(case):
 
     out = {"id": case["id"]}
     bb = common.build_bb(case)
+    # history: the same conditionals under a re-ordered signature, ranked first in this process (objects must not share state)
+    if case.get("perm"):
+        try:
+            from inference.belief_base import BeliefBase
+            sig2 = [case["sig"][i] for i in case["perm"]]
+            o2 = PreOCF.init_random_min_c_rep(BeliefBase(sig2, dict(bb.conditionals), "perm"))
+            out["perm"] = {"impacts": [int(x) for x in o2._impacts], "ranks": {w: int(r) for w, r in o2.compute_all_ranks().items()},
+                           "accept": [bool(o2.conditional_acceptance(c)) for c in bb.conditionals.values()]}
+        except BaseException as e:  # noqa
+            out["perm"] = "EXC:%s:%s" % (type(e).__name__, str(e)[:100])
     try:
         ocf = PreOCF.init_random_min_c_rep(bb)
         out["impacts"] = list(ocf._impacts)
@@ -70,11 +80,16 @@ def run(tier, seed, broken_proof=False):
     m0 = common.run_model(cand)
     cases = []
     for c in cand:
-        if m0[c["id"]]["part"] is None or not c["base"]:
-            continue
+        if m0[c["id"]]["part"] is None or not c["base"] or len(c["base"]) > 5 or c["n"] > 6:
+            continue                # the box search of the model (completeness of the front) is exponential in the number of conditionals
         if rng.random() < 0.4:      # arbitrary keys
             ks = rng.sample(range(0, 30), len(c["base"]))
             c = dict(c, base=[(ks[i], b, a) for i, (_, b, a) in enumerate(c["base"])])
+        if c["n"] >= 2 and rng.random() < 0.5:
+            pm = list(range(c["n"]))
+            while pm == list(range(c["n"])):
+                rng.shuffle(pm)
+            c = dict(c, perm=pm)
         cases.append(c)
         if len(cases) >= count:
             break
@@ -150,6 +165,26 @@ def run(tier, seed, broken_proof=False):
             if bad:
                 violations.append({"kind": "crep-object", "why": bad, "case": desc, "impacts": im["impacts"], "found_by": "generated",
                                    "theorem_or_observable": "c-representation ranking object: " + bad})
+        if c.get("perm"):
+            strata["second-object-under-permuted-signature"] += 1
+            pr = im.get("perm")
+            badp = None
+            if not isinstance(pr, dict):
+                badp = "construction under a re-ordered signature failed: %s" % pr
+            else:
+                for wstr, r in pr["ranks"].items():
+                    w = [None] * c["n"]
+                    for pos, i in enumerate(c["perm"]):
+                        w[i] = wstr[pos] == "1"
+                    exp = sum(pr["impacts"][j] for j, (k, b, a) in enumerate(c["base"]) if ev(a, w) and not ev(b, w))
+                    if r != exp:
+                        badp = "re-ordered signature %s: world %s has rank %d, impacts of the falsified conditionals sum to %d" % ([c["sig"][i] for i in c["perm"]], wstr, r, exp)
+                        break
+                if badp is None and not all(pr["accept"]):
+                    badp = "re-ordered signature: the ranking does not accept every conditional of the base"
+            if badp:
+                violations.append({"kind": "crep-object", "why": badp, "case": desc, "perm": c["perm"], "found_by": "generated",
+                                   "theorem_or_observable": "c-representation ranking object: " + badp})
         fr = im["front"]
         strata["front-" + fr[0]] += 1
         if fr[0] != "OK":
@@ -183,7 +218,7 @@ def run(tier, seed, broken_proof=False):
             uniq.append(v)
     return {"evaluations": evals, "distinct_nontrivial": len(nontriv),
             "rule": "strongly consistent generated bases (<=4 atoms, <=4 conditionals incl. unfalsifiable ones and single-conditional bases, 40%% with arbitrary keys) + corpus; per base: the ranking object "
-                    "(impacts, all ranks, acceptance of the base and of 6 queries), c-inference answers, and the Pareto front under a %d s cap; non-trivial = each base" % CAP,
+                    "(impacts, all ranks, acceptance of the base and of 6 queries), c-inference answers, for half of the bases a first object over the same conditionals under a re-ordered signature in the same process, and the Pareto front under a %d s cap; non-trivial = each base" % CAP,
             "samples": samples, "strata": dict(strata), "traces_validated_against_impl": evals, "violations": uniq[:20]}
 
 
